@@ -11,7 +11,7 @@ from pyvc.loops import LoopSpec, loop_table, Sel
 from pyvc.ctx import Undecided
 from pyvc.interp import Interp, PyExc, Frame, _Return
 from pyvc import source
-from pyvc.bytesmodel import ByteStr, to_bytestr, struct_pack, struct_unpack, struct_Struct, struct_axioms, LE32, U32, TWO32, I_
+from pyvc.bytesmodel import ByteStr, to_bytestr, struct_pack, struct_unpack, struct_Struct, struct_axioms, struct_unpack_from, LE32, U32, TWO32, I_
 
 TMOD = 'pysyncobj/tcp_connection.py'
 TC = lambda n: '_TcpConnection__' + n
@@ -238,7 +238,7 @@ def sock_getsockopt(I, selfv, args, kw):
 REG = {'TcpConnection.disconnect': disconnect_summary, 'Socket.send': sock_send, 'Socket.recv': sock_recv, 'Socket.getsockopt': sock_getsockopt,
        'Socket.close': lambda I, s, a, k: None, 'Poller.unsubscribe': lambda I, s, a, k: I.ctx.glist('unsub').append(a[0]),
        'Poller.subscribe': lambda I, s, a, k: None}
-EXT = {'struct.pack': struct_pack, 'struct.unpack': struct_unpack, 'struct.Struct': struct_Struct, 'zlib.compress': ext_compress, 'zlib.decompress': ext_decompress,
+EXT = {'struct.pack': struct_pack, 'struct.unpack': struct_unpack, 'struct.unpack_from': struct_unpack_from, 'struct.Struct': struct_Struct, 'zlib.compress': ext_compress, 'zlib.decompress': ext_decompress,
        'pickle.dumps': ext_dumps, 'pickle.loads': ext_loads,
        'monotonicTime': None, 'bytes': lambda I, a, k: Win(z3.K(I_, z3.IntVal(0)), 0, 0)}
 
@@ -284,7 +284,7 @@ def s32(b0, b1, b2, b3):
 def tcp_parse(ctx):
     conn, rbuf, wbuf, st, sock = mk_conn(ctx)
     outcome, r, I = run_tc(ctx, conn, '__processParseMessage', [])
-    ctx.prove(outcome == 'ok', 'C13:O13.4.no-exception-escapes', info=outcome)
+    ctx.prove(outcome == 'ok', 'C13+C11:O13.4.no-exception-escapes', info=outcome)
     if outcome != 'ok':
         return
     n = to_z3(rbuf.n)
@@ -298,17 +298,17 @@ def tcp_parse(ctx):
     complete = And(n >= 4, l >= 0, n - 4 >= l)
     valid = VALID(rbuf.A, to_z3(rbuf.lo) + 4, l)
     if delivered:
-        ctx.prove(And(complete, valid), 'C13:O13.4.delivers-only-complete-valid-frames')
-        ctx.prove(isinstance(r, MsgV) and Eq(r.id, MSGOF(rbuf.A, to_z3(rbuf.lo) + 4, l)), 'C13:O13.4.message-is-decoded-payload')
-        ctx.prove(isinstance(rb1, Win) and rb1.A is rbuf.A and And(Eq(rb1.lo, to_z3(rbuf.lo) + 4 + l), Eq(rb1.n, n - 4 - l)), 'C13:O13.4.consumes-exactly-the-frame')
-        ctx.prove(len(disc) == 0, 'C13:O13.4.no-disconnect-on-valid-frame')
+        ctx.prove(And(complete, valid), 'C13+C11:O13.4.delivers-only-complete-valid-frames')
+        ctx.prove(isinstance(r, MsgV) and Eq(r.id, MSGOF(rbuf.A, to_z3(rbuf.lo) + 4, l)), 'C13+C11:O13.4.message-is-decoded-payload')
+        ctx.prove(isinstance(rb1, Win) and rb1.A is rbuf.A and And(Eq(rb1.lo, to_z3(rbuf.lo) + 4 + l), Eq(rb1.n, n - 4 - l)), 'C13+C11:O13.4.consumes-exactly-the-frame')
+        ctx.prove(len(disc) == 0, 'C13+C11:O13.4.no-disconnect-on-valid-frame')
     else:
-        ctx.prove(Not(And(complete, valid)), 'C13:O13.4.complete-valid-frame-delivered')
+        ctx.prove(Not(And(complete, valid)), 'C13+C11:O13.4.complete-valid-frame-delivered')
         if disc:
-            ctx.prove(And(n >= 4, Or(l < 0, And(complete, Not(valid)))), 'C13:O13.4.disconnects-only-on-invalid-frame')
+            ctx.prove(And(n >= 4, Or(l < 0, And(complete, Not(valid)))), 'C13+C11:O13.4.disconnects-only-on-invalid-frame')
         else:
-            ctx.prove(Or(short, incomplete), 'C13:O13.4.negative-length-disconnects' if True else '')
-            ctx.prove(isinstance(rb1, Win) and rb1.A is rbuf.A and And(Eq(rb1.lo, rbuf.lo), Eq(rb1.n, rbuf.n)), 'C13:O13.4.incomplete-frame-left-alone')
+            ctx.prove(Or(short, incomplete), 'C13+C11:O13.4.negative-length-disconnects' if True else '')
+            ctx.prove(isinstance(rb1, Win) and rb1.A is rbuf.A and And(Eq(rb1.lo, rbuf.lo), Eq(rb1.n, rbuf.n)), 'C13+C11:O13.4.incomplete-frame-left-alone')
 
 
 def _mut_drop_negative_check(fn):
@@ -344,22 +344,22 @@ def tcp_send(ctx):
     conn, rbuf, wbuf, st, sock = mk_conn(ctx)
     mid = FreshInt('msg')
     outcome, r, I = run_tc(ctx, conn, 'send', [MsgV(mid)], registry={'TcpConnection.__trySendBuffer': trySend_summary})
-    ctx.prove(outcome == 'ok', 'C13:O13.1.no-exception', info=outcome)
+    ctx.prove(outcome == 'ok', 'C13+C11:O13.1.no-exception', info=outcome)
     if outcome != 'ok':
         return
     ts = ctx.glist('trysend')
-    ctx.prove(len(ts) == 1, 'C13:O13.1.flush-attempted-once')
+    ctx.prove(len(ts) == 1, 'C13+C11:O13.1.flush-attempted-once')
     wb1 = ts[0] if ts else fld(ctx, conn, 'writeBuffer')
     zl = ZLEN(mid)
     j = FreshInt('j')
     n0 = to_z3(wbuf.n)
-    ctx.prove(Eq(wb1.n, n0 + 4 + zl), 'C13:O13.1.appends-exactly-the-frame')
-    ctx.prove(Implies(And(j >= 0, j < n0), wb1.at(j) == wbuf.at(j)), 'C13:O13.1.pending-bytes-kept-in-front')
+    ctx.prove(Eq(wb1.n, n0 + 4 + zl), 'C13+C11:O13.1.appends-exactly-the-frame')
+    ctx.prove(Implies(And(j >= 0, j < n0), wb1.at(j) == wbuf.at(j)), 'C13+C11:O13.1.pending-bytes-kept-in-front')
     want = [LE32[k](zl) for k in range(4)]
     for k in range(4):
-        ctx.prove(wb1.at(n0 + k) == want[k], 'C13:O13.1.length-field-is-payload-length')
-    ctx.prove(Implies(And(j >= 0, j < zl), wb1.at(n0 + 4 + j) == z3.Select(ZARR(mid), j)), 'C13:O13.1.payload-is-compressed-pickle')
-    ctx.prove(Eq(fld(ctx, conn, 'readBuffer').n, rbuf.n), 'C13:O13.1.read-side-untouched')
+        ctx.prove(wb1.at(n0 + k) == want[k], 'C13+C11:O13.1.length-field-is-payload-length')
+    ctx.prove(Implies(And(j >= 0, j < zl), wb1.at(n0 + 4 + j) == z3.Select(ZARR(mid), j)), 'C13+C11:O13.1.payload-is-compressed-pickle')
+    ctx.prove(Eq(fld(ctx, conn, 'readBuffer').n, rbuf.n), 'C13+C11:O13.1.read-side-untouched')
 
 
 def _mut_len_plus_one(fn):
@@ -379,7 +379,7 @@ def _mut_len_plus_one(fn):
 def tcp_process_send(ctx):
     conn, rbuf, wbuf, st, sock = mk_conn(ctx, CONNECTED)
     outcome, r, I = run_tc(ctx, conn, '__processSend', [])
-    ctx.prove(outcome == 'ok', 'C13:O13.2.no-exception-escapes', info=outcome)
+    ctx.prove(outcome == 'ok', 'C13+C11:O13.2.no-exception-escapes', info=outcome)
     if outcome != 'ok':
         return
     wire = ctx.glist('wire_out')
@@ -390,18 +390,18 @@ def tcp_process_send(ctx):
     if not wire:
         again = ctx.glist('send_errno_again')
         if again:
-            ctx.prove(Iff(len(disc) == 1, Not(again[0])) if len(disc) <= 1 else False, 'C13:O13.2.hard-error-disconnects-EAGAIN-does-not')
+            ctx.prove(Iff(len(disc) == 1, Not(again[0])) if len(disc) <= 1 else False, 'C13+C11:O13.2.hard-error-disconnects-EAGAIN-does-not')
             if not disc:
-                ctx.prove(wb1.A is wbuf.A and And(Eq(wb1.lo, wbuf.lo), Eq(wb1.n, wbuf.n)), 'C13:O13.2.EAGAIN-keeps-buffer')
+                ctx.prove(wb1.A is wbuf.A and And(Eq(wb1.lo, wbuf.lo), Eq(wb1.n, wbuf.n)), 'C13+C11:O13.2.EAGAIN-keeps-buffer')
         else:
-            ctx.prove(Eq(n0, 0) if not disc else False, 'C13:O13.2.no-socket-call-only-when-buffer-empty')
-        ctx.prove(Not(res), 'C13:O13.2.no-progress-reported-false')
+            ctx.prove(Eq(n0, 0) if not disc else False, 'C13+C11:O13.2.no-socket-call-only-when-buffer-empty')
+        ctx.prove(Not(res), 'C13+C11:O13.2.no-progress-reported-false')
         return
     buf, sent = wire[0]
-    ctx.prove(len(wire) == 1 and buf.A is wbuf.A and And(Eq(buf.lo, wbuf.lo), Eq(buf.n, wbuf.n)), 'C13:O13.2.whole-buffer-offered-once')
-    ctx.prove(len(disc) == 0, 'C13:O13.2.no-disconnect-on-success')
-    ctx.prove(isinstance(wb1, Win) and wb1.A is wbuf.A and And(Eq(wb1.lo, to_z3(wbuf.lo) + sent), Eq(wb1.n, n0 - sent)), 'C13:O13.2.remaining-is-unsent-suffix')
-    ctx.prove(Iff(res, sent > 0), 'C13:O13.2.returns-true-iff-progress')
+    ctx.prove(len(wire) == 1 and buf.A is wbuf.A and And(Eq(buf.lo, wbuf.lo), Eq(buf.n, wbuf.n)), 'C13+C11:O13.2.whole-buffer-offered-once')
+    ctx.prove(len(disc) == 0, 'C13+C11:O13.2.no-disconnect-on-success')
+    ctx.prove(isinstance(wb1, Win) and wb1.A is wbuf.A and And(Eq(wb1.lo, to_z3(wbuf.lo) + sent), Eq(wb1.n, n0 - sent)), 'C13+C11:O13.2.remaining-is-unsent-suffix')
+    ctx.prove(Iff(res, sent > 0), 'C13+C11:O13.2.returns-true-iff-progress')
 
 
 def _mut_skip_byte(fn):
@@ -420,7 +420,7 @@ def _mut_skip_byte(fn):
 def tcp_process_read(ctx):
     conn, rbuf, wbuf, st, sock = mk_conn(ctx, CONNECTED)
     outcome, r, I = run_tc(ctx, conn, '__processRead', [])
-    ctx.prove(outcome == 'ok', 'C13:O13.3.no-exception-escapes', info=outcome)
+    ctx.prove(outcome == 'ok', 'C13+C11:O13.3.no-exception-escapes', info=outcome)
     if outcome != 'ok':
         return
     win = ctx.glist('wire_in')
@@ -431,20 +431,20 @@ def tcp_process_read(ctx):
     j = FreshInt('j')
     if not win:
         again = ctx.glist('recv_errno_again')
-        ctx.prove(len(again) == 1 and Iff(len(disc) == 1, Not(again[0])), 'C13:O13.3.hard-error-disconnects-EAGAIN-does-not')
-        ctx.prove(Not(res), 'C13:O13.3.no-data-reported-false')
+        ctx.prove(len(again) == 1 and Iff(len(disc) == 1, Not(again[0])), 'C13+C11:O13.3.hard-error-disconnects-EAGAIN-does-not')
+        ctx.prove(Not(res), 'C13+C11:O13.3.no-data-reported-false')
         if not disc:
-            ctx.prove(rb1.A is rbuf.A and And(Eq(rb1.lo, rbuf.lo), Eq(rb1.n, rbuf.n)), 'C13:O13.3.EAGAIN-keeps-buffer')
+            ctx.prove(rb1.A is rbuf.A and And(Eq(rb1.lo, rbuf.lo), Eq(rb1.n, rbuf.n)), 'C13+C11:O13.3.EAGAIN-keeps-buffer')
         return
     inc = win[0]
     if disc:
-        ctx.prove(Not(res), 'C13:O13.3.disconnect-reported-false')
+        ctx.prove(Not(res), 'C13+C11:O13.3.disconnect-reported-false')
         return
-    ctx.prove(to_z3(inc.n) > 0, 'C13:O13.3.EOF-disconnects')
-    ctx.prove(Eq(rb1.n, n0 + to_z3(inc.n)), 'C13:O13.3.appended-at-the-end')
-    ctx.prove(Implies(And(j >= 0, j < n0), rb1.at(j) == rbuf.at(j)), 'C13:O13.3.old-bytes-kept-in-front')
-    ctx.prove(Implies(And(j >= 0, j < to_z3(inc.n)), rb1.at(n0 + j) == inc.at(j)), 'C13:O13.3.appended-at-the-end')
-    ctx.prove(res, 'C13:O13.3.data-reported-true')
+    ctx.prove(to_z3(inc.n) > 0, 'C13+C11:O13.3.EOF-disconnects')
+    ctx.prove(Eq(rb1.n, n0 + to_z3(inc.n)), 'C13+C11:O13.3.appended-at-the-end')
+    ctx.prove(Implies(And(j >= 0, j < n0), rb1.at(j) == rbuf.at(j)), 'C13+C11:O13.3.old-bytes-kept-in-front')
+    ctx.prove(Implies(And(j >= 0, j < to_z3(inc.n)), rb1.at(n0 + j) == inc.at(j)), 'C13+C11:O13.3.appended-at-the-end')
+    ctx.prove(res, 'C13+C11:O13.3.data-reported-true')
 
 
 def _mut_prepend(fn):
@@ -527,18 +527,18 @@ def tcp_readloop(ctx):
         ended = 'return'
     except PyExc as e:
         ended = 'raise:' + e.typ
-    ctx.prove(not ended.startswith('raise'), 'C13:O13.5.no-exception-escapes', info=ended)
+    ctx.prove(not ended.startswith('raise'), 'C13+C11:O13.5.no-exception-escapes', info=ended)
     cbs = [x for x in ctx.glist('cb') if x[0] == 'cb:onMessageReceived']
     hascb = Not(ctx.cell(conn).fields[TC('onMessageReceived')].isnone)
     if stt['parsed']:
         rb, l, m = stt['parsed'][0]
-        ctx.prove(Implies(hascb, len(cbs) == 1) if len(cbs) != 1 else True, 'C13:O13.5.each-message-delivered-once')
+        ctx.prove(Implies(hascb, len(cbs) == 1) if len(cbs) != 1 else True, 'C13+C11:O13.5.each-message-delivered-once')
         for tag, a in cbs:
-            ctx.prove(isinstance(a[0], MsgV) and Eq(a[0].id, m.id), 'C13:O13.5.delivered-message-is-the-parsed-one')
-        ctx.prove(ended in ('next-iteration', 'return'), 'C13:O13.5.loop-continues-after-a-message')
+            ctx.prove(isinstance(a[0], MsgV) and Eq(a[0].id, m.id), 'C13+C11:O13.5.delivered-message-is-the-parsed-one')
+        ctx.prove(ended in ('next-iteration', 'return'), 'C13+C11:O13.5.loop-continues-after-a-message')
     else:
-        ctx.prove(len(cbs) == 0, 'C13:O13.5.nothing-delivered-without-a-frame')
-        ctx.prove(ended == 'break', 'C13:O13.5.loop-stops-at-incomplete-frame')
+        ctx.prove(len(cbs) == 0, 'C13+C11:O13.5.nothing-delivered-without-a-frame')
+        ctx.prove(ended == 'break', 'C13+C11:O13.5.loop-stops-at-incomplete-frame')
 
 
 def _mut_deliver_twice(fn):
@@ -663,7 +663,7 @@ def tcp_try_send_buffer(ctx):
         outcome = e.typ
     ctx.prove(outcome == 'ok', 'C13+C14:trySend.no-exception', info=outcome)
     ev = ctx.glist('events')
-    ctx.prove(len(ev) >= 1 and ev[0] == 'timeout-check', 'C14:trySend.timeout-evaluated-before-sending', info=repr(ev[:3]))
+    ctx.prove(len(ev) >= 1 and ev[0] == 'timeout-check', 'C14+C20:trySend.timeout-evaluated-before-sending', info=repr(ev[:3]))
     exp = ctx.glist('expired')
     if exp and len(ev) > 1:
         ctx.prove(Not(exp[0]), 'C14+C13:trySend.nothing-sent-on-a-dead-connection')
@@ -912,7 +912,7 @@ def _read_loop_spec(ctx, conn):
         return [('O13.3.round-appends-exactly-the-received-bytes', And(Eq(rb1.n, n0 + to_z3(inc.n)),
                                                                       Implies(And(j >= 0, j < n0), rb1.at(j) == rb0.at(j)),
                                                                       Implies(And(j >= 0, j < to_z3(inc.n)), rb1.at(n0 + j) == inc.at(j))))]
-    return LoopSpec('C13:O13.3.read-loop', inv, havoc=havoc, check=check, keep=('self',)), st
+    return LoopSpec('C13+C11:O13.3.read-loop', inv, havoc=havoc, check=check, keep=('self',)), st
 
 
 @unit(name='tcp.tryReadBuffer', relpath=TMOD, qual=['TcpConnection.__tryReadBuffer', 'TcpConnection.__processRead'], props=['C13', 'C14'],
@@ -928,20 +928,20 @@ def tcp_try_read_buffer(ctx):
     loops = {'TcpConnection.__tryReadBuffer': loop_table(mod, 'TcpConnection.__tryReadBuffer', {Sel('while'): spec})}
     last0 = fld(ctx, conn, 'lastReadTime')
     outcome, r, I = run_tc(ctx, conn, '__tryReadBuffer', [], loops=loops)
-    ctx.prove(outcome == 'ok', 'C13:O13.3.read-loop.no-exception-escapes', info=outcome)
+    ctx.prove(outcome == 'ok', 'C13+C11:O13.3.read-loop.no-exception-escapes', info=outcome)
     if outcome != 'ok':
         return
     rb1 = fld(ctx, conn, 'readBuffer')
     disc = ctx.glist('disconnects')
     head = st.get('head')
     if disc:
-        ctx.prove(isinstance(rb1, Win) and Eq(rb1.n, 0), 'C13+C14:O13.5.a-dead-connection-leaves-no-bytes-in-the-read-buffer', info=repr(getattr(rb1, 'n', rb1)))
-        ctx.prove(fld(ctx, conn, 'state') == DISCONNECTED, 'C13+C14:O13.5.disconnected-state-after-a-failed-read')
+        ctx.prove(isinstance(rb1, Win) and Eq(rb1.n, 0), 'C13+C14+C11:O13.5.a-dead-connection-leaves-no-bytes-in-the-read-buffer', info=repr(getattr(rb1, 'n', rb1)))
+        ctx.prove(fld(ctx, conn, 'state') == DISCONNECTED, 'C13+C14+C11:O13.5.disconnected-state-after-a-failed-read')
     elif head is not None:
         j = FreshInt('j')
         ctx.prove(isinstance(rb1, Win) and And(Eq(rb1.n, head.n), Implies(And(j >= 0, j < to_z3(head.n)), rb1.at(j) == head.at(j))),
-                  'C13:O13.3.read-loop.nothing-added-after-the-last-successful-read')
-    ctx.prove(fld(ctx, conn, 'lastReadTime') is not last0, 'C13+C14:O13.3.read-loop.last-read-time-refreshed')
+                  'C13+C11:O13.3.read-loop.nothing-added-after-the-last-successful-read')
+    ctx.prove(fld(ctx, conn, 'lastReadTime') is not last0, 'C13+C14+C11:O13.3.read-loop.last-read-time-refreshed')
 
 
 # ------------------------------------------------------------------------------------------------ constructors establish what the units assume
